@@ -51,11 +51,95 @@ def _in_nested_scope(node, fn):
     return False
 
 
+def _split_parallel(fn, pinned):
+    """`a, b = X, Y` with NEW plain names on the left is stored as `a = X; b = Y` (exact when no right-hand side reads a target:
+    binding a name has no side effect, so only the order of evaluation of Y against the binding of a could matter)."""
+    n_ = 0
+    for par in ast.walk(fn):
+        for fld in ("body", "orelse", "finalbody"):
+            b = getattr(par, fld, None)
+            if not isinstance(b, list):
+                continue
+            i = 0
+            while i < len(b):
+                st = b[i]
+                if isinstance(st, ast.Assign) and len(st.targets) == 1 and isinstance(st.targets[0], (ast.Tuple, ast.List)) \
+                        and isinstance(st.value, (ast.Tuple, ast.List)) and len(st.value.elts) == len(st.targets[0].elts) \
+                        and all(isinstance(e, ast.Name) and e.id not in pinned for e in st.targets[0].elts) \
+                        and not any(isinstance(e, ast.Starred) for e in st.value.elts):
+                    tn = {e.id for e in st.targets[0].elts}
+                    if len(tn) == len(st.targets[0].elts) and not any(isinstance(x, ast.Name) and x.id in tn for v in st.value.elts for x in ast.walk(v)):
+                        new = []
+                        for k, (t, v) in enumerate(zip(st.targets[0].elts, st.value.elts)):
+                            a = ast.Assign(targets=[t], value=v, type_comment=None)
+                            ast.copy_location(a, v)
+                            a.end_lineno, a.end_col_offset = getattr(v, "end_lineno", v.lineno), getattr(v, "end_col_offset", v.col_offset + 1)
+                            new.append(a)
+                        b[i:i + 1] = new
+                        n_ += 1
+                        i += len(new)
+                        continue
+                i += 1
+    return n_
+
+
+def _unpack_indexed(fn, pinned):
+    """`t = f(..)` whose only uses are `t[0]`, `t[1]`, .. (constant indices, loads) with t a NEW local is stored as the unpacking
+    `(t__0, t__1, ..) = f(..)` with the subscripts replaced by those names: indexing a result tuple and unpacking it are one program
+    for the analyses (the arity of the result is not something they decide)."""
+    n_ = 0
+    for n in ast.walk(fn):
+        for c in ast.iter_child_nodes(n):
+            c._parent = n
+    stores = _stores(fn)
+    for st in [s for s in ast.walk(fn) if isinstance(s, ast.Assign)]:
+        if len(st.targets) != 1 or not isinstance(st.targets[0], ast.Name) or not isinstance(st.value, ast.Call):
+            continue
+        t = st.targets[0].id
+        if t in pinned or len(stores.get(t, [])) != 1 or _in_nested_scope(st, fn):
+            continue
+        uses = [x for x in ast.walk(fn) if isinstance(x, ast.Name) and x.id == t and isinstance(x.ctx, ast.Load)]
+        if len(uses) < 2:
+            continue
+        idx = []
+        for u in uses:
+            p = getattr(u, "_parent", None)
+            if isinstance(p, ast.Subscript) and p.value is u and isinstance(p.ctx, ast.Load) and isinstance(p.slice, ast.Constant) \
+                    and isinstance(p.slice.value, int) and not isinstance(p.slice.value, bool) and 0 <= p.slice.value < 8 \
+                    and not _in_nested_scope(u, fn) and (u.lineno, u.col_offset) > (st.lineno, st.col_offset):
+                idx.append((p, p.slice.value))
+            else:
+                idx = None
+                break
+        if not idx or len({k for _, k in idx}) < 2:
+            continue
+        width = max(k for _, k in idx) + 1
+        names = [f"{t}__{k}" for k in range(width)]
+        if any(nm in stores for nm in names):
+            continue
+        tup = ast.Tuple(elts=[ast.copy_location(ast.Name(id=nm, ctx=ast.Store()), st.targets[0]) for nm in names], ctx=ast.Store())
+        st.targets = [ast.copy_location(tup, st.targets[0])]
+        for sub, k in idx:
+            new = ast.copy_location(ast.Name(id=names[k], ctx=ast.Load()), sub)
+            up = sub._parent
+            for f_ in up._fields:
+                v = getattr(up, f_, None)
+                if v is sub:
+                    setattr(up, f_, new)
+                elif isinstance(v, list):
+                    for i_, e_ in enumerate(v):
+                        if e_ is sub:
+                            v[i_] = new
+        n_ += 1
+    return n_
+
+
 def fold_function(fi):
     fn = fi.node
     pinned = set(PIN["locals"].get(fi.qualname, ()))
     if fi.qualname not in PIN["locals"]:
         return 0
+    pre = _split_parallel(fn, pinned) + _unpack_indexed(fn, pinned)
     # renamed locals look like new ones: when the function has lost as many pinned locals as it has gained new ones, the new names are
     # (most likely) the old locals under another name - the rules already follow renamed locals by shape, so nothing is folded there
     present = {n.id for n in ast.walk(fn) if isinstance(n, ast.Name) and isinstance(n.ctx, ast.Store)}
@@ -64,8 +148,8 @@ def fold_function(fi):
     missing = {p for p in pinned if p not in present and p not in params}
     gained = {p for p in present if p not in pinned}
     if missing and len(gained) <= len(missing):
-        return 0
-    total = 0
+        return pre
+    total = pre
     for _ in range(80):
         for n in ast.walk(fn):
             for c in ast.iter_child_nodes(n):
